@@ -3,6 +3,17 @@ import itertools
 import time
 
 from vlib.units import unit
+from vlib import mk
+import copy
+
+_PROG = []
+
+
+def _prog(mod):
+  if not _PROG:
+    _PROG.append(mk.program(mod))
+  return _PROG[0]
+
 from vlib import strhom
 
 F = 'compiler/expr_translate.py'
@@ -70,8 +81,7 @@ def gen_strliteral(tier, mod):
   n = 2 if tier == 'quick' else 3
   for cls in sorted(dmod.DIALECTS.values(), key=lambda c: c.__name__):
     dialect = cls()
-    ql = mod.QL.__new__(mod.QL)
-    ql.dialect = dialect
+    ql = mk.ql(mod, dialect)
     lx = strhom.LEXERS[dialect.Name()]
     for k in range(0, n + 1):
       for t in itertools.product(ALPHA, repeat=k):
@@ -164,7 +174,7 @@ def slots(template):
 
 def gen_function(tier, mod):
   fs, _ = all_templates(mod)
-  ql = mod.QL.__new__(mod.QL)
+  ql = mk.ql(mod)
   pool = NASTY if tier == 'thorough' else NASTY[:7]
   for f in fs:
     n = slots(f)
@@ -180,7 +190,7 @@ def gen_function(tier, mod):
 
 def gen_infix(tier, mod):
   _, ops = all_templates(mod)
-  ql = mod.QL.__new__(mod.QL)
+  ql = mk.ql(mod)
   for op in ops:
     for l in NASTY:
       for r in NASTY:
@@ -198,7 +208,7 @@ def infix_spec(op, args):
 
 # ---------------------------------------------------------------- flags
 def mk_annotations(mod, defines, resets, user):
-  a = mod.Annotations.__new__(mod.Annotations)
+  a = mk.annotations(mod)
   a.annotations = {k: {} for k in mod.Annotations.ANNOTATING_PREDICATES}
   for f, d in defines.items():
     a.annotations['@DefineFlag'][f] = ({'1': d} if d is not None else {})
@@ -261,7 +271,7 @@ def gen_useflags(tier, mod):
            '${f}${g}${h}', "x = '${YYYY}'"]
   for flags in flagsets:
     for t in texts:
-      p = mod.LogicaProgram.__new__(mod.LogicaProgram)
+      p = copy.copy(_prog(mod))
       p.flag_values = dict(flags)
       yield {'args': [t], 'self': p,
              'env': {'expand': expand, 'flags': flags, 'recursive': is_recursive(flags), 're': re},
